@@ -85,6 +85,9 @@ Calls ==
 \* PRG and samplers
 \cup {C("NewChacha20PRG", s, cu, "-", OkIf(s = "exact" /\ cu \in {"nil", "empty", "short", "exact"})) : s \in Bytes, cu \in Bytes}
 \cup {C("RestoreChacha20PRG", s, "-", "-", OkIf(s = "exact")) : s \in Bytes}
+\* a state of the right length with a forged byte counter: Restore returns (the keystream is only defined below 2^38 bytes: nothing is read there)
+\cup {C("RestoreChacha20PRGCounter", cnt, "-", "-", "any") :
+        cnt \in {"0", "63", "64", "65", "2^32-1", "2^32", "2^32+63", "2^38-65", "2^38-1", "2^38", "2^38+1", "2^44", "2^50", "2^63", "2^64-1"}}
 \cup {C("UintN", n, "-", "-", IF n = "zero" THEN "exception" ELSE "ok") : n \in {"zero", "one", "two", "max"}}
 \cup {C("Permutation", n, "-", "-", IF n = "huge" THEN "exception" ELSE OkIf(n \in {"zero", "one", "small"})) : n \in {"min", "neg", "zero", "one", "small", "huge"}}
 \cup {C("SubPermutation", n, m, "-", IF n = "huge" THEN "exception" ELSE "any-or-reject") : n \in {"min", "neg", "zero", "one", "small", "huge"}, m \in {"min", "neg", "zero", "one", "small", "big"}}
